@@ -909,6 +909,48 @@ def shrink(ctx, case, sig, scratch):
     return (case[0], case[1], case[2], ops)
 
 
+def unsavable_stream(scratch):
+    """impl-only supplementary stream (the launcher model has no class whose checkpoint fails): a launch / create task with
+    persist=True for a process that cannot be persisted is not honoured — the reply is the persister's error — and the process is
+    then not run 'in some other way' either."""
+    w = _init_worker()
+    asyncio, plumpy, pc, lp = w['asyncio'], w['plumpy'], w['pc'], w['lp']
+    fails, n = [], 0
+    ident = lp.Unsavable         # (the body builders identify the class through the default loader)
+    for pers_kind in ('mem', 'pickle'):
+        for task_kind in ('launch', 'create'):
+            for nowait in (False, True):
+                ss = Session(scratch, pers_kind, 'default')
+                n += 1
+                try:
+                    if task_kind == 'launch':
+                        task = pc.create_launch_body(ident, init_kwargs={'inputs': {'n': 3}}, persist=True, nowait=nowait)
+                    else:
+                        task = pc.create_create_body(ident, init_kwargs={'inputs': {'n': 3}}, persist=True)
+                    err = None
+                    try:
+                        ss.loop.run_until_complete(ss.launcher(None, task))
+                    except BaseException as e:  # noqa
+                        err = type(e).__name__
+                    for _ in range(30):
+                        ss.loop.run_until_complete(asyncio.sleep(0))
+                    ran = [ev for _pid, ev in lp.TRACE if ev == 'run']
+                    stored = list(ss.pers.get_checkpoints())
+                    if err is None or ran or stored:
+                        fails.append(dict(signature='task-not-honoured-but-executed' if ran else 'unsavable-task-accepted',
+                                          clause='a task that cannot be honoured is rejected rather than executed in some other way '
+                                                 '(a launch task persists the process first when asked)',
+                                          detail=dict(persister=pers_kind, task=task_kind, nowait=nowait, reply_error=err,
+                                                      process_ran=bool(ran), checkpoints=len(stored)),
+                                          case=dict(unsavable=True, persister=pers_kind, task=task_kind, nowait=nowait)))
+                finally:
+                    try:
+                        ss.loop.close()
+                    except Exception:  # noqa
+                        pass
+    return n, fails
+
+
 def run(ctx):
     scratch = common.scratch_dir(PROPERTY)
     try:
@@ -921,8 +963,10 @@ def _run(ctx, scratch):
     cases, n_sys = gen_cases(ctx)
     impl, model = evaluate(ctx, cases, scratch)
     divergences, failures = [], []
+    n_unsav, f_unsav = unsavable_stream(scratch)
+    failures.extend(f_unsav)
     distinct = set()
-    hist = dict(task_type={}, reply={}, config={}, via={}, history_length={}, failure_signatures={})
+    hist = dict(task_type={}, reply={}, config={}, via={}, history_length={}, failure_signatures={}, unsavable_stream=n_unsav)
     n_tasks = 0
     seen_sigs = {}
     for idx, (case, r) in enumerate(zip(cases, impl)):
@@ -962,7 +1006,7 @@ def _run(ctx, scratch):
     # minimise the first failure of each signature
     shrunk = set()
     for f in failures:
-        if f['signature'] in shrunk or f['signature'] in ('harness-error',):
+        if f['signature'] in shrunk or f['signature'] in ('harness-error',) or f['case'].get('unsavable'):
             continue
         shrunk.add(f['signature'])
         c = f['case']
@@ -986,6 +1030,12 @@ def _run(ctx, scratch):
 def replay(ctx, failure):
     c = failure['case']
     scratch = common.scratch_dir(PROPERTY)
+    if c.get('unsavable'):
+        try:
+            n, fails = unsavable_stream(scratch)
+            return dict(runs=n, failures=[dict(signature=f['signature'], detail=f['detail']) for f in fails])
+        finally:
+            common.rm_scratch(scratch)
     try:
         case = (c['pers'], c['loader'], c.get('via', 'direct'), list(c['ops']))
         r = run_case((scratch, case[0], case[1], case[2], case[3]))
